@@ -72,15 +72,16 @@ def _depth(spec):
 @st.composite
 def _case(draw, ctx):
     op = draw(st.sampled_from(["fanin", "fanin", "fanout", "fanout", "regs", "unroll"]))
+    again = draw(st.integers(0, 3)) == 0  # apply the transform to its own output with a smaller k
     tables = draw(st.lists(st.integers(0, (1 << 64) - 1), min_size=16, max_size=16))
     if op == "fanin":
         spec = draw(S.circuit_spec(min_inputs=2, max_inputs=7, min_gates=1, max_gates=8, max_fanin=7,
                                    max_insts=draw(st.sampled_from([0, 0, 2])), io_outputs=True))
-        return {"op": op, "k": draw(st.integers(2, 5)), "spec": spec, "tables": tables}
+        return {"op": op, "k": draw(st.integers(2, 5)), "spec": spec, "tables": tables, "again": again}
     if op == "fanout":
         spec = draw(S.circuit_spec(min_inputs=1, max_inputs=3, min_gates=3, max_gates=12, max_fanin=3,
                                    max_insts=draw(st.sampled_from([0, 0, 2])), io_outputs=True))
-        return {"op": op, "k": draw(st.integers(2, 5)), "spec": spec, "tables": tables}
+        return {"op": op, "k": draw(st.integers(2, 5)), "spec": spec, "tables": tables, "again": again}
     if op == "regs":
         spec = draw(S.circuit_spec(min_inputs=1, max_inputs=4, min_gates=2, max_gates=10, max_fanin=3))
         d = _depth(spec)
@@ -149,6 +150,14 @@ def check(case, ctx):
                 raise Violation(f"{op}|k_lt_2", f"limit_{op}(c,{k}) did not raise ValueError")
             return {"nontrivial": False, "labels": [op + "_reject_k"]}
         r = need(out, op, f"limit_{op}(c,{k})")
+        if case.get("again") and k > 2:
+            # histories: the result of one application is a legal argument of the next
+            k2 = 2 + (k + len(spec["nodes"])) % (k - 2)
+            r = need(lib(fn, r, k2), op + "_again", f"limit_{op}(limit_{op}(c,{k}),{k2})")
+            k = k2
+            labels.append("reapplied")
+        if refsim.has_cycle(r):
+            raise Violation(f"{op}|cyclic_result", f"limit_{op} returned a cyclic circuit")
         if refsim.snapshot(c) != snap:
             raise Violation(f"{op}|mutates_argument", "argument modified")
         if r.inputs() != c.inputs() or r.outputs() != c.outputs():
